@@ -29,7 +29,7 @@ CHECKS["C20"] = dict(
     level="model_checking",
     claim="Bounded symbolic execution of the real Queue/Stack SSA: one operation from every state satisfying the representation invariant "
           "(every head/tail position at each listed capacity, symbolic contents) plus bounded runs from the zero value, each compared with a "
-          "list model; every assertion is discharged by the SMT solver or by term normalisation, for all 64-bit element values.",
+          "list model; every assertion is discharged by the SMT solver or by term normalisation, for all 64-bit element values. Quick tier: queue step harness also from every state of a 32-cell buffer.",
     note="Bounds: capacities and run lengths in evidence.bounds. The step from 'every operation from every invariant state is correct' to "
          "'every history' is a paper argument. gosym's SSA semantics and the solvers are trusted.",
     instances=dict(quick=_q_quick + _r_quick + _s_quick, thorough=_q_thor + _r_thor + _s_thor),
@@ -89,7 +89,7 @@ CHECKS["C03"] = dict(
     level="model_checking",
     claim="Inductive step on the real executeSetStatement/executeDeclareStatement and InMemoryStorer: from an arbitrary store (two variables, "
           "each absent or of any type with symbolic value), one set/declare with an arbitrary operator code and right-hand side, compared with "
-          "the assignment table; failure leaves the store unchanged; one name never under two types; a host write is what is read next.",
+          "the assignment table; failure leaves the store unchanged; one name never under two types; a host write is what is read next. VHStorerOps: the default in-memory store equals a model (presence, type and value per name, through GetValue, Contains and GetValues, the returned map being the caller's own) after every one of OPS operations among writes of each type, Clear and caller-side changes to a returned map.",
     note="Host storers violating the Storer contract are outside the claim. Strings bounded to 2 bytes; doubles unrestricted.",
     instances=dict(
         quick=[inst("root", "VHSetStatement", solver="cvc5", workers=12, must_reach=["failed", "succeeded", "host-write", "second-assignment"]),
@@ -142,13 +142,19 @@ CHECKS["C11"] = dict(
     claim="Same inductive step as C01 with the visit map symbolic (three presence configurations, counts >= 1 symbolic) and each node's tracking "
           "header a symbolic 5-byte string: after one Next the count of every node equals its old count plus the number of successful jumps that "
           "left it, unless its header is exactly `never`; non-nodes are never counted; visited/visited_count (through the real reflection bridge) "
-          "report the map.",
+          "report the map. Runs (VHRevisit): from a runner's real initial state, on a script whose nodes jump back to n0 (from its top level, "
+          "from option and if bodies), command arguments and conditions that read visited()/visited_count() see the reference's counts on "
+          "every one of STEPS calls.",
     note="Counts adopted from a host-fabricated snapshot containing zero entries are outside the claim.",
     instances=dict(
         quick=[_world("VHNextStep", DEPTH=1, QLEN=1, BUDGET=1, HEAD=100, must_reach=["jumped", "fail"]),
                _world("VHVisitedFns", DEPTH=1, QLEN=1, HEAD=100, must_reach=["visited-fn", "never-tracked", "jumped", "other-runner"]),
-               _world("VHVisitsAcrossRestore", DEPTH=1, QLEN=1, VISCFG=1, must_reach=["tracked-after-restore", "untracked-after-restore"])],
-        thorough=[_world("VHNextStep", DEPTH=2, QLEN=2, BUDGET=1, HEAD=100, workers=16, must_reach=["jumped", "fail"]),
+               _world("VHVisitsAcrossRestore", DEPTH=1, QLEN=1, VISCFG=1, must_reach=["tracked-after-restore", "untracked-after-restore"]),
+               # runs from a runner's real initial state (a node that jumps to itself from its top level, conditions and command
+               # arguments that read visited()/visited_count() on every round): what the inductive step cannot start from
+               _world("VHRevisit", STEPS=5, BUDGET=1, JUMPCAT=1, OPTJUMP=1, CMDV=1, VISITCOND=1, **_REVISIT)],
+        thorough=[_world("VHRevisit", STEPS=7, BUDGET=1, JUMPCAT=1, OPTJUMP=1, CMDV=1, VISITCOND=1, workers=16, **_REVISIT),
+                  _world("VHNextStep", DEPTH=2, QLEN=2, BUDGET=1, HEAD=100, workers=16, must_reach=["jumped", "fail"]),
                   _world("VHNextStep", DEPTH=1, QLEN=2, BUDGET=1, workers=16, must_reach=["jumped", "fail"]),
                   _world("VHVisitedFns", DEPTH=2, QLEN=1, HEAD=100, workers=16, must_reach=["visited-fn", "never-tracked", "jumped", "other-runner"]),
                   _world("VHVisitsAcrossRestore", DEPTH=2, QLEN=2, CMDCHAN=1, VISCFG=1, workers=16, must_reach=["tracked-after-restore", "untracked-after-restore"])]),
@@ -158,7 +164,7 @@ CHECKS["C12"] = dict(
     level="model_checking",
     claim="From every state of the C01 state space, one Next; on every path where it reports the end (running off the continuation, <<stop>> "
           "with statements still queued, an empty option body chosen), two further Next calls with arbitrary 64-bit arguments must report "
-          "the end again, must not panic, and must leave store, visit counts and handler/function logs unchanged.",
+          "the end again, must not panic, and must leave store, visit counts and handler/function logs unchanged. The host may have registered a command of its own under the name stop (its handler is never reached, its channel never awaited) and the stop may be followed by words (<<stop now>>).",
     note="The end states are those the real code produces from the state space, not hand-picked.",
     instances=dict(
         quick=[_world("VHEndAbsorbing", DEPTH=1, QLEN=2, BUDGET=1, VISCFG=1, HOSTSTOP=1, must_reach=["ended"]),
@@ -231,7 +237,7 @@ CHECKS["C07"] = dict(
           "(2) RestoreAt of an arbitrary snapshot (symbolic node name incl. unknown ones, symbolic variables and counts) into a runner in any "
           "state (mid-node, exhausted, waiting for a choice, command pending/completed) yields the canonical node-entry state, an immediately "
           "taken snapshot equal to the restored one, and a following step that runs the node's first statement; the snapshot and a second "
-          "runner restored from it are unaffected; an unknown node is an error that changes nothing.",
+          "runner restored from it are unaffected; an unknown node is an error that changes nothing. VHStorerOps (see C03): the default store, which snapshots read through GetValues and restores empty through Clear.",
     note="Equality of futures is argued from equality of abstract states plus determinism of Next (C01/C09) for the arbitrary-state harnesses, and checked "
          "directly on runs by VHRestoreReplay. Scripts using random functions and host storers are outside the claim.",
     instances=dict(
@@ -257,7 +263,7 @@ CHECKS["C10"] = dict(
           "store, visit counts, handler/function logs; a blocking receive would be a deadlock path), completion with nil or an error at a "
           "solver-chosen moment is surfaced exactly once, and the dialogue then resumes with an ordinary step; the C01 step checks that every "
           "executed command statement invokes its handler exactly once with its arguments in order and that a still-pending handler is reported. "
-          "<<wait n>> on a virtual clock: the sleep completes no earlier than n seconds for every double 0 <= n < 2^31.",
+          "<<wait n>> on a virtual clock: the sleep completes no earlier than n seconds for every double 0 <= n < 2^31. With a host that registered its own wait, <<wait 0>> reaches that handler, once.",
     note="Data-race freedom and real goroutine timing (Go memory model) are outside the claim: the handler goroutine is run at harness-chosen points. "
          "Handlers converted through reflect are exercised under C16.",
     instances=dict(
@@ -330,7 +336,7 @@ CHECKS["C13"] = dict(
           "to PROPS properties of every value type incl. shorthand and inner whitespace), template shape chosen by forking, contents symbolic; "
           "the expected plain text and, per marker, name, typed properties, position and length in characters are computed while assembling and "
           "compared (as a multiset) with the result, and TextForAttribute with the enclosed text. Separate harnesses: the implicit `Name: ` "
-          "prefix, replacement markers (select, plural, ordinal, nomarkup; self-closing and closed by name) and the self-closing whitespace rule.",
+          "prefix, replacement markers (select, plural, ordinal, nomarkup; self-closing and closed by name) and the self-closing whitespace rule. Scripted template: three markers opened over two names, then closed by name in every order the names allow (a close marker takes the oldest open marker of its name), an ASCII or two-byte character after each.",
     note="The final trim of the text and the whitespace swallowed after a self-closing marker are not second-guessed: the generator keeps edge "
          "whitespace out of the plain text and places self-closing markers after non-space characters (the swallow rule has its own harness "
          "mirroring the repository's tests). Decimal values: strconv's exact path float64(mantissa)/10^k.",
@@ -364,7 +370,7 @@ CHECKS["C17"] = dict(
           "numbers equal to the literal, expressions keep their position, every other word is a string verbatim. Dispatch (handler reached once "
           "with the arguments in order, <<stop>> never dispatched, unregistered name an error) is decided by the C01/C10 step harnesses and by runs "
           "(VHRevisit with command heads, incl. a command whose argument fails to evaluate, followed by a well-formed command). Word-level chunks "
-          "(WORDS: up to 4 one-letter words per chunk) reach commands longer than the byte-level bound.",
+          "(WORDS: up to 4 one-letter words per chunk) reach commands longer than the byte-level bound. With a host that registered commands named stop and wait: <<stop>> is still never dispatched, <<wait 0>> reaches the host's handler once.",
     note="Which characters reach COMMAND_TEXT and whether a keyword-prefixed name (iffy, settings) is an ordinary command is decided by the ANTLR "
          "lexer: outside the claim. The numeric value of a literal is strconv's (exact for integer and d.dd literals).",
     instances=dict(
@@ -495,8 +501,9 @@ def _ls(h, workers=8, **params):
     return inst("internal/tree", h, params, workers=workers, must_reach=mr, solver="z3", **kw)
 
 _LISTENER_NOTE = (" Listener side: the real parserListener is driven by the events of ANTLR's real ParseTreeWalker over a synthesised parse tree (real "
-                  "generated context classes, terminal nodes and tokens) and the syntax tree built is compared with the one the parse tree denotes; all "
-                  "callback stacks return to their entry depth.")
+                  "generated context classes, terminal nodes and tokens) and the syntax tree built is compared with the one the parse tree denotes "
+                  "(statement trees incl. if chains nested in the clauses of if chains to depth 2 and two nodes in a row; expression trees incl. "
+                  "left-leaning chains (a op b) op c).")
 CHECKS["C02"]["instances"]["quick"] += [_ls("VHExpressionListener", DEPTH=1, must_reach=["expression", "binary"]),
                                         # left-leaning chains (a op b) op c, the shape left-associativity produces: number leaves, one operator per family
                                         _ls("VHExpressionListener", DEPTH=2, LEAN=1, SKEW=1, must_reach=["expression", "binary"])]
